@@ -9,12 +9,22 @@ MODE="${1:-quick}"
 [ -n "${VERIF_TIER:-}" ] && [ "$MODE" != "--replay" ] && [ $# -eq 0 ] && MODE="$VERIF_TIER"
 cd "$VERIF_DIR/harness" || exit 2
 cp /repo/go.sum go.sum 2>/dev/null
-BIN="$VERIF_BUILD/vcheck"
+case "$ID" in
+  C09|C14) INSTR=1 ;;
+  *) INSTR=0 ;;
+esac
 # always rebuild from /repo's current working tree (the Go build cache makes this ~1-2 s when unchanged)
-if ! out=$(go build -tags verif -o "$BIN" ./cmd/vcheck 2>&1); then
-  echo "BUILD-ERROR property=$ID (current tree or hooks do not compile)" >&2
-  echo "$out" >&2
-  exit 2
+if [ $INSTR = 1 ]; then
+  BIN="$VERIF_BUILD/vcheck-instr"
+  "$VERIF_DIR/bin/instrument.sh" || { echo "BUILD-ERROR property=$ID (instrumenter failed on the current tree)" >&2; exit 2; }
+  if ! out=$(go build -overlay "$VERIF_BUILD/instr/overlay.json" -tags "verif verifinstr" -o "$BIN" ./cmd/vcheck 2>&1); then
+    echo "BUILD-ERROR property=$ID (instrumented build of the current tree failed)" >&2; echo "$out" >&2; exit 2
+  fi
+else
+  BIN="$VERIF_BUILD/vcheck"
+  if ! out=$(go build -tags verif -o "$BIN" ./cmd/vcheck 2>&1); then
+    echo "BUILD-ERROR property=$ID (current tree or hooks do not compile)" >&2; echo "$out" >&2; exit 2
+  fi
 fi
 if [ "$MODE" = "--replay" ]; then
   exec "$BIN" -replay "${2:?replay file}"
